@@ -2079,6 +2079,9 @@ static int32_t parse_XTA(ParserBuilder *aParserBuilder,
 
     // Reset position tracking
     tracker.setPath(ch, xpath);
+    // The location of the lookahead is only set when a token is scanned: without this an
+    // error at the very beginning (e.g. empty input) is reported where the previous parse ended.
+    yylloc.start = yylloc.end = tracker.position;
 
     // Parse string
     int res = 0;
@@ -2103,6 +2106,7 @@ static int32_t parseProperty(ParserBuilder *aParserBuilder, const std::string& x
 
     // Reset position tracking
     tracker.setPath(ch, xpath);
+    yylloc.start = yylloc.end = tracker.position;
 
     return utap_parse() ? -1 : 0;
 }
